@@ -264,6 +264,32 @@ Section Run.
     end.
 End Run.
 
+(* ------------------------------------------------------------------ enterprise conf records *)
+(** strings.Split(string(data), "\\"): the pieces between separator bytes 92 (always >= 1 piece) *)
+Fixpoint split92 (data : str) : list str :=
+  match data with
+  | [] => [[]]
+  | x :: r =>
+      if N.eqb x 92 then [] :: split92 r
+      else match split92 r with h :: t => (x :: h) :: t | [] => [[x]] end
+  end.
+
+(** deserializeConf: On = (data[0] == 1), Values = Split(data, "\\")[1:] *)
+Definition de_conf (data : str) : bool * list str :=
+  (match data with x :: _ => N.eqb x 1 | [] => false end, tl (split92 data)).
+
+(** serializeConf: one flag byte, then every value preceded by the separator *)
+Definition ser_conf (c : bool * list str) : str :=
+  (if fst c then 1%N else 0%N) :: flat_map (fun v => 92%N :: v) (snd c).
+
+Definition sepfree (v : str) : bool := negb (existsb (N.eqb 92) v).
+Definition conf_sepfree (c : bool * list str) : bool := forallb sepfree (snd c).
+Definition ent_sepfree (ev : entview) : bool := forallb (fun kc => conf_sepfree (snd kc)) (ev_confs ev).
+
+(** the enterprise state as read from the raw stored conf records (by upper-case key) *)
+Definition ent_of_raw (sender admins : str) (raw_confs : list (str * str)) (cc : bool) : entview :=
+  mkEnt sender admins (map (fun kr => (fst kr, de_conf (snd kr))) raw_confs) cc.
+
 (* ------------------------------------------------------------------ global state, one step *)
 (** the governance contract storage that the panic sites read *)
 Record gstate := mkG {
